@@ -6,6 +6,7 @@
 #include <unistd.h>
 #include <OpenVolumeMesh/IO/ovmb_read.hh>
 #include <OpenVolumeMesh/IO/ovmb_write.hh>
+#include <OpenVolumeMesh/IO/IO.hh>
 #include <OpenVolumeMesh/FileManager/FileManager.hh>
 #include "hist_more.hh"
 #include "ovmb_indep.hh"
